@@ -12,9 +12,10 @@ import Driver.EscOps
 import Driver.RulesOps
 import Driver.GrammarOps
 import Driver.UpdateOps
+import Driver.GenerateOps
 /-! Line-protocol driver: one operation per input line, one canonical line out. -/
 namespace Driver
-open Driver.CramOps Driver.MarkdownOps Driver.EscOps Driver.RulesOps Driver.YamlOps Driver.TplOps Driver.PrettyOps Driver.GrammarOps Driver.UpdateOps
+open Driver.CramOps Driver.MarkdownOps Driver.EscOps Driver.RulesOps Driver.YamlOps Driver.TplOps Driver.PrettyOps Driver.GrammarOps Driver.UpdateOps Driver.GenerateOps
 
 def step (line : String) : String :=
   match line.trimAscii.toString.splitOn " " with
@@ -60,6 +61,8 @@ def step (line : String) : String :=
   | "gram" :: args => opGram args
   | "gwhite" :: args => opGWhite args
   | "upd" :: args => opUpd args
+  | "gen" :: args => opGen args
+  | "noop" :: args => opNoop args
   | _ => "bad-op"
 
 partial def loop (h : IO.FS.Stream) (out : IO.FS.Stream) : IO Unit := do
